@@ -80,9 +80,12 @@ func (g *vecGen) fresh() []float32 {
 		for i := range v {
 			v[i] = float32(g.rng.NormFloat64() * 3)
 		}
-	case shape == 3: // small-integer lattice
+	case shape == 3: // small-integer lattice (a zero component is, now and then, a NEGATIVE zero)
 		for i := range v {
 			v[i] = float32(g.rng.IntN(5) - 2)
+			if v[i] == 0 && g.rng.IntN(4) == 0 {
+				v[i] = float32(math.Copysign(0, -1))
+			}
 		}
 	case shape == 4 && len(g.pool) > 0: // exact duplicate
 		copy(v, g.pool[g.rng.IntN(len(g.pool))])
